@@ -1662,6 +1662,10 @@ int parse_instruction_68000(AsmContext *asm_context, char *instr)
         {
           ignore_operand(asm_context);
           //operands[operand_count].error = 1;
+
+          // Store a flag in this instruction to remind on pass 2 that the
+          // immediate was unknown in pass 1, so add can't turn into addq.
+          asm_context->memory_write(asm_context->address + 1, 1, asm_context->tokens.line);
         }
           else
         {
@@ -2124,7 +2128,8 @@ printf("\n");
       else
     if (operands[0].type == OPERAND_IMMEDIATE)
     {
-      if (operands[0].value >= 1 && operands[0].value <= 8)
+      if (operands[0].value >= 1 && operands[0].value <= 8 &&
+          asm_context->memory_read(asm_context->address + 1) == 0)
       {
         strcpy(instr_case, "addq");
       }
